@@ -62,7 +62,6 @@ func TestC02Shapes(t *testing.T) {
 	st.mu.Unlock()
 }
 
-
 // pipe right-hand sides for the C15 shape grid
 var shapePipeRHS = []string{"[0]", "[-1]", "[1]", "length(@)", "[?@]", "[0].k", "type(@)", "[::-1]", "@", "to_array(@)", "[*]", "[]", "[*].k", "not_null(@, `1`)", "[0] || `\"d\"`", "[?k].j", "keys(@)", "[:1]", "*", "[@, @[0]]"}
 
